@@ -2440,9 +2440,17 @@ class Signature(object):
         hash_type = SIGHASH_ALL
         # DER encoded with hash type byte: a short r or s makes it 64 bytes or less
         if signature.startswith(b'\x30') and (len(signature) != 64 or signature[1] == len(signature) - 3):
-            der_signature = signature[:-1]
-            hash_type = int.from_bytes(signature[-1:], 'big')
-            signature = convert_der_sig(signature[:-1], as_hex=False)
+            try:
+                raw_signature = convert_der_sig(signature[:-1], as_hex=False)
+            except Exception:
+                if len(signature) != 64:
+                    raise
+                # 64 bytes which only begin like a DER sequence: this is r and s themselves
+                raw_signature = None
+            if raw_signature is not None:
+                der_signature = signature[:-1]
+                hash_type = int.from_bytes(signature[-1:], 'big')
+                signature = raw_signature
         if len(signature) != 64:
             raise BKeyError("Signature length must be 64 bytes or 128 character hexstring")
         r = int.from_bytes(signature[:32], 'big')
